@@ -50,14 +50,18 @@ def sizes(tier):
     for k in (1, 2, 3):
         out += list(range(k * PAGE - 8, k * PAGE + 9))
     if tier == "thorough":
-        out += [100, 1000, 4 * PAGE, 5 * PAGE - 1, 5 * PAGE, 5 * PAGE + 1, 16 * PAGE]
+        out += list(range(65, 301)) + [1000, 16 * PAGE]
+        for k in (1, 2, 3):
+            out += list(range(k * PAGE - 40, k * PAGE - 8)) + list(range(k * PAGE + 9, k * PAGE + 41))
+        for k in (4, 5, 8):
+            out += list(range(k * PAGE - 8, k * PAGE + 9))
     return out
 
 
 def run(tier, seed):
     rep = Report(PROP, tier, seed)
     tmp = hexec.tmpdir()
-    rep.rule = ("files of every size 0..64 and every size within +-8 of 1, 2 and 3 pages, filled with a valid program ending with "
+    rep.rule = ("files of every size 0..64 and every size within +-8 of 1, 2 and 3 pages (thorough: 0..300, +-40 of 1-3 pages, +-8 of 4, 5, 8 pages), filled with a valid program ending with "
                 "a newline / with the last instruction touching the last byte / with CRLF / inside a comment; both file entry "
                 "points (plain and counting) against the string entry points on the same contents (return value, offset, bytes, "
                 "count), on fresh instances and on instances with chunk fitting / STRICT options / a start offset set and a "
